@@ -30,7 +30,11 @@ def main(tier="quick", seed=0, procs=None, only=None):
     if only:
         cases = [c for c in cases if only in c.name]
         run.extra["filtered_only"] = only
-    from ..catalog import canaries
-    cases = cases + canaries.tensor_canaries()
+    from ..catalog import canaries, kernels
+    kc = kernels.tensor_kernels(tier)             # kernel-level contracts (each cpu_ops backward on its own body)
+    if only:
+        kc = [c for c in kc if only in c.name]
+    run.extra["kernel_level_cases"] = len(kc)
+    cases = cases + kc + canaries.tensor_canaries()
     run_catalogue(run, cases, seed=seed, procs=procs)
     return run.finish()
